@@ -460,7 +460,7 @@ def gen(ctx):
             yield 'retry', dict(spec=spec, codes=('one', 'several', 'none', 'one')[k % 4], excs=('one', 'several', 'one', 'empty')[(k // 3) % 4],
                                 n_tracers=k % 3, requests=reqs)
     # scripted attempt outcomes incl. BaseException subclasses and CancelledError raised by the transport
-    outs = [o for o in c19.OUTCOMES if o != 'cancel-task']
+    outs = [o for o in c19.OUTCOMES if o not in ('cancel-task', 'exc-stopiteration')]   # (the interpreter itself replaces StopIteration inside a coroutine)
     for attempts in (None, 0, 1, 2):
         n = attempts or 0
         scripts = list(itertools.product(outs, repeat=n + 1)) if n <= 1 else \
